@@ -7,6 +7,7 @@ import (
 	"crypto/elliptic"
 	"crypto/rsa"
 	"fmt"
+	"math/big"
 	"sync"
 
 	cose "github.com/veraison/go-cose"
@@ -45,6 +46,10 @@ func spellInt(r *Rng, n int64, allKinds bool) any {
 	return pick(r, opts)
 }
 
+// genBigInts: let genGoValue produce big.Int values (outside the data model of the closure properties: only the
+// encoders' determinism and the model's bytes are checked on them)
+var genBigInts bool
+
 func genGoValue(r *Rng, depth int) any {
 	n := 8
 	if depth <= 0 {
@@ -62,6 +67,15 @@ func genGoValue(r *Rng, depth int) any {
 	case 4:
 		return pick(r, []any{true, false, nil})
 	case 5:
+		if genBigInts && r.Chance(1, 3) { // big integers: how they are written depends on the encoder mode of the bucket
+			b := new(big.Int)
+			b.SetString(pick(r, []string{"0", "5", "-6", "9223372036854775807", "9223372036854775808", "18446744073709551615", "18446744073709551616",
+				"-9223372036854775808", "-9223372036854775809", "-18446744073709551616", "-18446744073709551617", "1180591620717411303424"}), 10)
+			if r.Bool() {
+				return *b
+			}
+			return b
+		}
 		return uint64(r.Intn(100000))
 	case 6:
 		k := r.Intn(4)
